@@ -377,6 +377,11 @@ def _apply_ops(solver, name, ops, obs, markers=False):
         if op[0] == "solve":
             solver.solve(max_iterations=int(op[1]))
             obs.append(observe_full(solver, name))
+        elif op[0] == "solve_until":
+            rem = int(op[1]) - int(solver.iteration)
+            if rem > 0:
+                solver.solve(max_iterations=rem)
+            obs.append(observe_full(solver, name))
         elif op[0] == "wait":
             if getattr(solver, "checkpoint_manager", None) is not None:
                 solver.checkpoint_manager.wait_until_finished()
